@@ -22,9 +22,12 @@ pub struct Case {
 
 fn mk_map(lines: &[(u32, Vec<(u32, Option<RefSrc>, bool)>)], route: Route) -> MM {
     let mut tokens = vec![];
+    let mut k = 0u32;
     for (l, toks) in lines {
         for (c, src, range) in toks {
-            tokens.push(MTok { dl: *l, dc: *c, src: src.clone(), range: *range, junk: (0, 0) });
+            // sourceless tokens carry varying don't-care original positions (raw / builder routes)
+            k += 1;
+            tokens.push(MTok { dl: *l, dc: *c, src: src.clone(), range: *range, junk: (k % 3, k % 2) });
         }
     }
     MM {
@@ -95,6 +98,8 @@ fn random(t: Tier) -> BoxedStrategy<Case> {
         4 => 0usize..7,
         2 => proptest::sample::select(vec![15usize, 16, 17, 18, 31, 32, 33, 34]),
         1 => 7usize..t.pick(45, 90),
+        1 => 60usize..t.pick(150, 400),
+        1 => proptest::sample::select(vec![255usize, 256, 257, 511, 513, 700, 767, 768, 769, 770, 1023, 1025]),
     ];
     let tok = (
         prop_oneof![1 => Just(0u32), 5 => 1u32..5],
@@ -310,6 +315,10 @@ fn check(c: &Case, obs: &mut Obs) -> Verdict {
                 obs.class_if(i == 17, "range-at-index-17");
                 obs.class_if((31..=32).contains(&i), "range-at-index-31/32");
                 obs.class_if(i >= 33, "range-at-index>=33");
+                obs.class_if(i >= 64, "range-at-index>=64");
+                obs.class_if(i >= 128, "range-at-index>=128");
+                obs.class_if(i >= 512, "range-at-index>=512");
+                obs.class_if(i >= 768, "range-at-index>=768");
                 obs.class_if(t.src.is_none(), "sourceless-range");
                 obs.class_if(i > 0 && toks[..i].windows(2).any(|w| w[0] == w[1]), "exact-duplicates-before-range");
             } else {
@@ -347,7 +356,7 @@ fn subs() -> Vec<Sub> {
 pub const DEF: PropertyDef = PropertyDef {
     id: "C07",
     rule: "exhaustive_small: every shape with <= 3 (thorough 4) lines x <= 4 tokens per line x every subset of range flags x {consecutive, \
-           gapped lines}, routes cycled. random: 1..7 lines with gaps, 0..45(90) tokens per line with token counts forced onto 15..18 and \
+           gapped lines}, routes cycled. random: 1..7 lines with gaps, 0..45(90), sometimes 60..150(400) or 255..1025 tokens per line with token counts forced onto 15..18 and \
            31..34, exact duplicates, sourceless range tokens, forced first/last/all-range lines. Oracles: decode of an independently written \
            document, independent reading of the emitted mappings+rangeMappings, flags after ser+decode, lookup shift model. Non-trivial = \
            >= 1 range and >= 1 non-range token on >= 2 lines",
